@@ -9,7 +9,7 @@
 """
 from __future__ import annotations
 
-from ..absint import AObj, ClassInfo, Func, MISSING, PyRaise
+from ..absint import AObj, Bound, ClassInfo, Func, MISSING, PyRaise
 from ..specalg import ShapeError, check_anchors, get_domain, parallel, shards
 
 
@@ -136,6 +136,92 @@ def class_table(chk, dom):
                 chk.ok("R05.3", key=(cls.name, name))
 
 
+PARSE_TEXTS = [">=2,<1", ">1,<1", ">=1,<=1", "==1.0,!=1.0", "!=1.0,!=1.0", "<1||>=1", "<=1||>=1", "<1||>1", ">=1,<2||>=2,<3", ">=1,<2||>2,<3",
+               "<1||<2", ">=3||>=1,<2", "==1.*||==2.*", "!=1.*,!=2.*", "~=1.4,!=1.5.*", "<empty>||<empty>", "||", ">=1||<empty>", "==1.0||==1.0.0",
+               ">=1.0,>=1.0.0", ">=1,<2,>=1.5", "<2||>=1.5,<3||>=2.5", ">1||>=1", "<=1||<1", "!=1||==1", "==1.5||!=1.5", ">=1,<2||>=2", "<3,>=1||<1",
+               "~=1.4||~=1.5", "==1.4.*||==1.5.*||==1.6.*", ">=1!0||<1!0", "<1.0a1||>=1.0a1"]
+PARSE_CANDS = ["0.5", "1", "1.0.1", "1.4", "1.4.5", "1.5", "1.5.3", "1.6", "1.9", "2", "2.5", "2.7", "3", "4", "1!0", "1!1"]
+
+
+def parsed_results(chk):
+    """R05.4: results of *parsing* (comma sets are folded with &, `||` alternatives with |) are canonical and exact."""
+    from ..verdomain import VerDomain
+    from .. import pkgmodel
+    d = VerDomain(str(chk.src))
+
+    def canon(s):
+        if s.cls in (d.Empty, d.Any):
+            return None
+        if s.cls is d.Range:
+            lo, hi = s.f["min"], s.f["max"]
+            if lo is not None and hi is not None:
+                if lo.rank > hi.rank:
+                    return "range with min > max"
+                if lo.rank == hi.rank and not (s.f["include_min"] and s.f["include_max"]):
+                    return "degenerate point range"
+            return None
+        if s.cls is d.Union:
+            rs = s.f["ranges"]
+            if len(rs) < 2:
+                return f"union of {len(rs)} range(s)"
+            for r in rs:
+                if r.cls is not d.Range or canon(r) or (r.f["min"] is None and r.f["max"] is None):
+                    return "bad union member"
+            for a, b in zip(rs, rs[1:]):
+                if a.f["max"] is None or b.f["min"] is None:
+                    return "unbounded member inside a union"
+                am, bm = a.f["max"].rank, b.f["min"].rank
+                if not (am < bm or (am == bm and not a.f["include_max"] and not b.f["include_min"])):
+                    return "members overlapping, touching or unordered"
+            return None
+        return f"unexpected class {s.cls.name}"
+
+    def member(s, v):
+        if s.cls is d.Empty:
+            return False
+        if s.cls is d.Any:
+            return True
+        if s.cls is d.Range:
+            lo, hi = s.f["min"], s.f["max"]
+            okl = lo is None or v.rank > lo.rank or (v.rank == lo.rank and s.f["include_min"])
+            okh = hi is None or v.rank < hi.rank or (v.rank == hi.rank and s.f["include_max"])
+            return okl and okh
+        return any(member(r, v) for r in s.f["ranges"])
+
+    def oracle(text, v):
+        if text == "<empty>":
+            return False
+        if "||" in text:
+            return any(oracle(t, v) for t in text.split("||"))
+        return pkgmodel.SpecifierSetVal(text).sym_contains(v)
+    FN = "dep_logic.specifiers:parse_version_specifier"
+    for t in PARSE_TEXTS:
+        chk.instance("R05.4")
+        try:
+            r = d.parse(t)
+        except PyRaise as e:
+            chk.fail("R05.4", f"{FN}:raises", f"parse_version_specifier({t!r}) raises {d.exc_name(e)}")
+            continue
+        why = canon(r)
+        if why:
+            chk.fail("R05.4", d.blame(FN) + ":non-canonical", f"parse_version_specifier({t!r}) -> {d.show(r)} is not canonical: {why}", {"path": d.path()})
+            continue
+        vs = [d.V(c) for c in PARSE_CANDS]
+        got = [member(r, v) for v in vs]
+        exp = [oracle(t, v) for v in vs]
+        if got != exp:
+            i = next(i for i in range(len(vs)) if got[i] != exp[i])
+            chk.fail("R05.4", d.blame(FN) + ":inexact", f"parse_version_specifier({t!r}) -> {d.show(r)}: {PARSE_CANDS[i]} is "
+                     f"{'admitted' if got[i] else 'rejected'} structurally but PEP 440 says the opposite", {"path": d.path()})
+            continue
+        ie = d.it.truth(d.it.call(Bound(r.cls.lookup("is_empty")[0], r), [], {}))
+        ia = d.it.truth(d.it.call(Bound(r.cls.lookup("is_any")[0], r), [], {}))
+        if ie != (not any(exp) and r.cls is d.Empty) or (ia and not all(exp)):
+            chk.fail("R05.4", FN + ":is_empty/is_any", f"parse_version_specifier({t!r}) -> {d.show(r)} reports is_empty={ie}, is_any={ia}")
+        else:
+            chk.ok("R05.4", key=t)
+
+
 def run(chk):
     K = 3 if chk.tier == "quick" else 4
     src = str(chk.src)
@@ -150,6 +236,8 @@ def run(chk):
     dom = get_domain(src, K)
     check_anchors(chk, dom)
     class_table(chk, dom)
+    chk.rule("R05.4", "results of parsing (comma sets folded with &, || with |) are canonical and exact", min_instances=30)
+    parsed_results(chk)
     n_ops = len(dom.operands)
     tasks = [(src, K, lo, hi) for lo, hi in shards(n_ops, chk.jobs)]
     total = nontriv = nfail = 0
